@@ -630,6 +630,7 @@ pub proof fn lemma_u32_octets(w: u32, s: Seq<u8>)
     requires s.len() == 4, w as nat == be_nat(s)
     ensures (w >> 24u32) as u8 == s[0], ((w & 0x00FF_0000u32) >> 16u32) as u8 == s[1],
             ((w & 0xFF00_0000u32) >> 24u32) == s[0] as u32, ((w & 0x00FF_0000u32) >> 16u32) == s[1] as u32,
+            (w >> 16u32) & 0xFFu32 == s[1] as u32,
             (w & 0xFFFFu32) == (s[2] as u32) * 256 + s[3] as u32,
 {
     lemma_be4(s);
@@ -638,6 +639,7 @@ pub proof fn lemma_u32_octets(w: u32, s: Seq<u8>)
         requires w as nat == ((b0 as nat * 256 + b1 as nat) * 256 + b2 as nat) * 256 + b3 as nat;
     assert((w >> 24u32) as u8 == b0 && ((w & 0x00FF_0000u32) >> 16u32) as u8 == b1
         && ((w & 0xFF00_0000u32) >> 24u32) == b0 as u32 && ((w & 0x00FF_0000u32) >> 16u32) == b1 as u32
+        && (w >> 16u32) & 0xFFu32 == b1 as u32
         && (w & 0xFFFFu32) == (b2 as u32) * 256 + b3 as u32) by(bit_vector)
         requires w == ((b0 as u32 * 256 + b1 as u32) * 256 + b2 as u32) * 256 + b3 as u32;
 }
